@@ -307,11 +307,11 @@ func TestC42(t *testing.T) {
 				q := map[string]any{"s": s * tick, "e": e * tick, "st": st * tick, "lose": -1}
 				if faults < vt.Pick(1, 2) && rnd.Intn(2) == 0 {
 					faults++
-					q["fault"] = map[string]any{"n": rnd.Intn(3), "k": 1 + rnd.Intn(2), "code": []int{500, 503, 500, 400, 422}[rnd.Intn(5)]}
+					q["fault"] = map[string]any{"n": []int{0, 0, 1, 2}[rnd.Intn(4)], "k": 1 + rnd.Intn(2), "code": []int{500, 503, 500, 400, 422}[rnd.Intn(5)]}
 				}
 				hist = append(hist, q)
 			}
-			yield(vt.Case{"src": "rand-fault", "iv": iv, "align": true, "par": 1, "retries": rnd.Intn(4),
+			yield(vt.Case{"src": "rand-fault", "iv": iv, "align": true, "par": 1, "retries": []int{0, 2, 3, 3, 1}[rnd.Intn(5)],
 				"world": randWorld(rnd, T*tick, tick), "vunit": tick, "hist": hist})
 		}
 		// ---- (d) phase 2: metadata requests and instant queries (c42meta_test.go) ----
